@@ -773,4 +773,99 @@ impl<T: ConstrainedFuzzyHashType> GeneratorType for Generator<T> {
     }
 }
 
+/// Verification hook (only with `--cfg fast_tlsh_verif`): explicit generator
+/// state, so that a simulator can start a history a few bytes before the
+/// 4 GiB marks without feeding 4 GiB each time, and can read the state back.
+///
+/// The state is: the 256 physical buckets (entries the variant does not have
+/// are ignored / reported as zero), the number of bytes processed after the
+/// tail was filled, the tail, its effective length and the checksum (only the
+/// first bytes the variant has are used / reported).
+#[cfg(fast_tlsh_verif)]
+pub trait VerifState: Sized {
+    /// Constructs a generator from the explicit state.
+    fn verif_from_state(
+        buckets: &[u32; 256],
+        len: u32,
+        tail: [u8; WINDOW_SIZE - 1],
+        tail_len: u32,
+        checksum: [u8; 3],
+    ) -> Self;
+
+    /// Returns the explicit state.
+    fn verif_state(&self) -> ([u32; 256], u32, [u8; WINDOW_SIZE - 1], u32, [u8; 3]);
+}
+
+#[cfg(fast_tlsh_verif)]
+impl<
+        const SIZE_CKSUM: usize,
+        const SIZE_BODY: usize,
+        const SIZE_BUCKETS: usize,
+        const SIZE_IN_BYTES: usize,
+        const SIZE_IN_STR_BYTES: usize,
+    > VerifState
+    for inner::Generator<SIZE_CKSUM, SIZE_BODY, SIZE_BUCKETS, SIZE_IN_BYTES, SIZE_IN_STR_BYTES>
+where
+    FuzzyHashBodyData<SIZE_BODY>: FuzzyHashBody,
+    FuzzyHashBucketsInfo<SIZE_BUCKETS>: FuzzyHashBucketMapper<
+        RawBodyType = [u8; SIZE_BODY],
+        RawBucketType = [u32; SIZE_BUCKETS],
+    >,
+    FuzzyHashChecksumData<SIZE_CKSUM, SIZE_BUCKETS>: FuzzyHashChecksum,
+    VerboseFuzzyHashParams<SIZE_CKSUM, SIZE_BODY, SIZE_BUCKETS, SIZE_IN_BYTES, SIZE_IN_STR_BYTES>:
+        ConstrainedVerboseFuzzyHashParams,
+    LengthProcessingInfo<SIZE_BUCKETS>: ConstrainedLengthProcessingInfo,
+{
+    fn verif_from_state(
+        buckets: &[u32; 256],
+        len: u32,
+        tail: [u8; WINDOW_SIZE - 1],
+        tail_len: u32,
+        checksum: [u8; 3],
+    ) -> Self {
+        let mut generator = Self::default();
+        let count = generator.buckets.buckets.len();
+        generator.buckets.buckets.copy_from_slice(&buckets[..count]);
+        generator.len = len;
+        generator.tail = tail;
+        generator.tail_len = tail_len;
+        let mut raw = [0u8; SIZE_CKSUM];
+        raw.copy_from_slice(&checksum[..SIZE_CKSUM]);
+        generator.checksum = FuzzyHashChecksumData::from_raw(&raw);
+        generator
+    }
+
+    fn verif_state(&self) -> ([u32; 256], u32, [u8; WINDOW_SIZE - 1], u32, [u8; 3]) {
+        let mut buckets = [0u32; 256];
+        let count = self.buckets.buckets.len();
+        buckets[..count].copy_from_slice(&self.buckets.buckets);
+        let mut checksum = [0u8; 3];
+        checksum[..SIZE_CKSUM].copy_from_slice(self.checksum.data());
+        (buckets, self.len, self.tail, self.tail_len, checksum)
+    }
+}
+
+#[cfg(fast_tlsh_verif)]
+impl<T: ConstrainedFuzzyHashType> VerifState for Generator<T>
+where
+    <<T as ConstrainedFuzzyHashType>::Params as ConstrainedFuzzyHashParams>::InnerGeneratorType:
+        VerifState,
+{
+    fn verif_from_state(
+        buckets: &[u32; 256],
+        len: u32,
+        tail: [u8; WINDOW_SIZE - 1],
+        tail_len: u32,
+        checksum: [u8; 3],
+    ) -> Self {
+        Self {
+            inner: <inner_type!(T)>::verif_from_state(buckets, len, tail, tail_len, checksum),
+        }
+    }
+
+    fn verif_state(&self) -> ([u32; 256], u32, [u8; WINDOW_SIZE - 1], u32, [u8; 3]) {
+        self.inner.verif_state()
+    }
+}
+
 pub(crate) mod tests;
